@@ -57,7 +57,8 @@ def _groups(configs, n):
 
 
 def explore(ctx, configs, names, sermax):
-  """Run LexMC on the configurations (in parallel TLC processes); returns the list of dumped states."""
+  """Run LexMC on the configurations (in parallel TLC processes).
+  Returns (strings, family lists): [(grammar, text, config id)], [list of families] - distinct, in a stable order."""
   groups = _groups(configs, 4)
 
   def one(k):
@@ -68,22 +69,32 @@ def explore(ctx, configs, names, sermax):
                     java_opts=("-Xmx6g",))
     if res.violated:
       raise T.MachineryError("LexMC violates its own invariants (%s): %s\n%s" % (groups[k], res.violated, res.out[-3000:]))
-    states = T.parse_dump_fast(os.path.join(res.workdir, "states%d.dump" % k), {"id", "s", "q", "out"})
-    return res, states
+    path = os.path.join(res.workdir, "states%d.dump" % k)
+    strings, fams = set(), set()
+    for st in T.parse_dump_fast(path, {"id", "s", "q"}):
+      c = configs[st["id"]]
+      if c["mode"] == "ser":
+        if st["q"]["p"]:
+          fams.add(json.dumps(st["q"]["p"]))
+      else:
+        strings.add((c["gram"], U.text_of(st["s"]), st["id"]))
+    os.remove(path)
+    return res, strings, fams
 
   with ThreadPoolExecutor(max_workers=4) as ex:
     results = list(ex.map(one, range(len(groups))))
-  states = []
-  for k, (res, st) in enumerate(results):
+  strings, fams = set(), set()
+  for k, (res, st, fm) in enumerate(results):
     ctx.tlc(res, "LexMC: " + " ".join(groups[k]))
-    states.extend(st)
-  return states
+    strings |= st
+    fams |= fm
+  return sorted(strings), [json.loads(x) for x in sorted(fams)]
 
 
 def validate(ctx, recs):
   """Trace validation, split over parallel TLC processes; returns [(record index, clause)]."""
   n = len(recs)
-  parts = 4 if n > 4000 else 1
+  parts = 1 if n <= 4000 else 4 if n <= 400000 else 4 * ((n + 399999) // 400000)
   size = (n + parts - 1) // parts
   chunks = [(k * size, recs[k * size:(k + 1) * size]) for k in range(parts) if recs[k * size:(k + 1) * size]]
 
@@ -119,28 +130,19 @@ def run(ctx):
               "given to the real parser; non-trivial = distinct (grammar, string, temporal context)")
   configs = U.model_configs(thorough)
   names = U.ser_names(thorough)
-  states = explore(ctx, configs, names, 2)
+  strings, famlists = explore(ctx, configs, names, 2)
 
   # ---- spec -> code: one case per distinct (grammar, string) that TLC built
   seen = set()
-  cases = []          # (gram, text, origin, extra)
+  cases = []          # (gram, text, origin)
   sers = []
-  for st in states:
-    c = configs[st["id"]]
-    if c["mode"] == "ser":
-      fams = st["q"]["p"]
-      if fams:
-        key = ("ser", json.dumps(fams))
-        if key not in seen:
-          seen.add(key)
-          sers.append((fams, "model"))
-      continue
-    text = U.text_of(st["s"])
-    key = (c["gram"], text)
-    if key in seen:
-      continue
-    seen.add(key)
-    cases.append((c["gram"], text, "model:" + st["id"]))
+  for gram, text, cid in strings:
+    if (gram, text) not in seen:
+      seen.add((gram, text))
+      cases.append((gram, text, "model:" + cid))
+  for fams in famlists:
+    seen.add(("ser", json.dumps(fams)))
+    sers.append((fams, "model"))
   ctx.count("strings_from_model", len(cases))
   ctx.count("family_lists_from_model", len(sers))
 
@@ -212,6 +214,10 @@ def run(ctx):
                            "accepted": acc, "observed": shown, "origin": origin},
                   feats, "%s %r (context %d): parser %s %s" % (gram, text, c, {0: "rejected", 1: "returned", 2: "raised"}[acc],
                                                                  json.dumps(shown, ensure_ascii=True)[:200]))
+  if os.environ.get("X02_DUMP"):          # debugging aid: every violation of this run, one JSON object per line
+    with open(os.environ["X02_DUMP"], "w") as fh:
+      for v in ctx.violations:
+        fh.write(json.dumps({"clause": v["clause"], "case": v["case"], "features": v["features"]}) + "\n")
   for k in (0, len(recs) // 3, 2 * len(recs) // 3):
     if recs:
       r = dict(recs[k])
